@@ -496,7 +496,13 @@ func FieldsExp(fs []Field) []KV {
 			continue
 		case "Err":
 			if stack && zerolog.ErrorStackMarshaler != nil {
-				out = append(out, KV{Key: zerolog.ErrorStackFieldName, Exp: Any(), Opt: true})
+				var err error
+				if f.Val != nil {
+					err = f.Val.(error)
+				}
+				if kv, present := stackKV(err, false); present {
+					out = append(out, kv)
+				}
 			}
 			e, ok := ValueExp(f)
 			if !ErrMarshalDefault {
@@ -556,8 +562,12 @@ func fieldsArgExp(f Field, stack bool) []KV {
 				e, ok = Null(), true
 			}
 			out = append(out, KV{Key: sf.Key, Exp: e})
-			if stack && zerolog.ErrorStackMarshaler != nil && sf.Val != nil {
-				out = append(out, KV{Key: zerolog.ErrorStackFieldName, Exp: Any(), Opt: true})
+			// (a Fields value that renders itself as an object is written as that object before the error
+			// arm, stack included, is ever reached)
+			if _, selfRendering := sf.Val.(zerolog.LogObjectMarshaler); stack && zerolog.ErrorStackMarshaler != nil && sf.Val != nil && !selfRendering {
+				if kv, present := stackKV(sf.Val.(error), true); present {
+					out = append(out, kv)
+				}
 			}
 			continue
 		case "Object":
@@ -574,6 +584,39 @@ func fieldsArgExp(f Field, stack bool) []KV {
 		}
 	}
 	return out
+}
+
+// stackKV: the stack field of an error logged while the stack flag is set. The documentation says the error
+// is passed to ErrorStackMarshaler and the result appended under ErrorStackFieldName: nothing for a nil
+// result (or a typed-nil error), the text of an error or string result, an object for a result that renders
+// itself, anything else as Interface would render it. (Through Fields a self-rendering result that is also
+// an error is written as its text.)
+func stackKV(err error, viaFields bool) (KV, bool) {
+	key := zerolog.ErrorStackFieldName
+	switch m := zerolog.ErrorStackMarshaler(err).(type) {
+	case nil:
+		return KV{}, false
+	case zerolog.LogObjectMarshaler:
+		if e, isErr := m.(error); isErr && viaFields {
+			if isNilPtr(e) {
+				return KV{}, false
+			}
+			return KV{Key: key, Exp: S(e.Error())}, true
+		}
+		return KV{Key: key, Exp: Any()}, true
+	case error:
+		if isNilPtr(m) {
+			return KV{}, false
+		}
+		return KV{Key: key, Exp: S(m.Error())}, true
+	case string:
+		return KV{Key: key, Exp: S(m)}, true
+	default:
+		if !InterfaceMarshalDefault {
+			return KV{Key: key, Exp: Any()}, true
+		}
+		return KV{Key: key, Exp: ifaceExp(m)}, true
+	}
 }
 
 // rawFieldsExp handles Fields() given a literal argument (odd slices, non-string keys, wrong types).
